@@ -15,7 +15,8 @@ LEVEL_TEXT = ("Bounded run-time contracts: all six belief-propagation flavours (
 LEVEL_NOTE = ("Trusted: numpy broadcasting / sum / einsum / svd as reference semantics on the raw tensor data of the inputs; "
               "tolerances: messages converged with tol=1e-11 (max_iterations far above the diameter), values and marginals "
               "1e-6 relative (3e-3 for single precision with quimb's default tol); signed / complex inputs are regenerated "
-              "until |Z| >= 1e-3 sum|terms| (no near-cancellation); inverse-gauge routes only on networks all of whose bonds "
+              "until |Z| >= 1e-3 sum|terms| (one-norm) resp. rms|psi| >= 1e-2 mean sum|terms| per entry (two-norm): no "
+              "near-cancellation; inverse-gauge routes only on networks all of whose bonds "
               "have full rank (singular-value ratio >= 1e-3).")
 TECHNIQUE = "run-time contracts on the real functions vs independent numpy references over a stated bounded domain (bounded stand-in)"
 E1 = []
